@@ -2,6 +2,7 @@
 // with callbacks running at arbitrary simulated instants, checked against a builder model, a
 // freshly configured twin, and a callback-free twin respectively.
 #include "lib.hpp"
+#include "world.hpp"
 
 // ---------------------------------------------------------------- shared small pieces
 static const char *HNAMES[] = {"a", "b", "typ", "alg", "kid", "cty", "x"};
@@ -191,21 +192,26 @@ static std::string builder_snapshot(jwt_builder_t *b, bool hdr)
 }
 
 struct Keys {
-	KeyRef oct, ec, weak;
-	LoadedKey oct_l, ec_priv, ec_pub, weak_l;
+	KeyRef oct, ec, weak, oct2, rsa;
+	LoadedKey oct_l, ec_priv, ec_pub, weak_l, oct2_l, rsa_priv, rsa_pub;
 	void init(Ctx &ctx, uint64_t root)
 	{
 		Rng r(mix64(root, 0x6b65));
 		oct = key_gen_oct(r, 32);
 		weak = key_gen_oct(r, 8);
+		oct2 = key_gen_oct(r, 32);
+		rsa = key_rsa_pool(2048, 1);
 		sim_entropy_point(mix64(root, 0xec));
 		ec = key_gen_ec("P-256");
 		JwkOpts o;
 		lib_load_key(ctx, jwk_export(*oct, o), oct_l);
 		lib_load_key(ctx, jwk_export(*weak, o), weak_l);
 		lib_load_key(ctx, jwk_export(*ec, o), ec_priv);
+		lib_load_key(ctx, jwk_export(*oct2, o), oct2_l);
+		lib_load_key(ctx, jwk_export(*rsa, o), rsa_priv);
 		o.priv = false;
 		lib_load_key(ctx, jwk_export(*ec, o), ec_pub);
+		lib_load_key(ctx, jwk_export(*rsa, o), rsa_pub);
 	}
 	void fini()
 	{
@@ -213,12 +219,18 @@ struct Keys {
 		lib_free_key(weak_l);
 		lib_free_key(ec_priv);
 		lib_free_key(ec_pub);
+		lib_free_key(oct2_l);
+		lib_free_key(rsa_priv);
+		lib_free_key(rsa_pub);
 	}
 };
 
 // ================================================================ builder (C10)
 static void builder_gen(Rng &r, Plan &p, Tier tier, uint64_t index)
 {
+	// the simulated clock advances by one second on every n-th read: a generate that reads the clock
+	// more than once shows up as time claims that do not belong to one instant
+	p.cfg["tick_every"] = Val((int64_t)(r.chance(1, 3) ? r.range(1, 3) : 0));
 	p.cfg["reuse"] = Val((int64_t)(r.chance(1, 4) ? 1 : 0)); // allocator address reuse (see SimAlloc::reuse)
 	(void)index;
 	int n = (int)r.range(5, tier == QUICK ? 30 : 45);
@@ -360,7 +372,13 @@ static void builder_exec(Ctx &ctx)
 			std::string h0 = builder_snapshot(b, true), c0 = builder_snapshot(b, false);
 			int64_t now = g_clock.now();
 			sim_entropy_point(mix64(plan.rng, s.uid));
+			g_clock.tick_every = plan.C("tick_every");
+			g_clock.reads = 0;
 			GenerateOut go = lib_generate(ctx, b);
+			g_clock.tick_every = 0;
+			int64_t now_after = g_clock.now();
+			if (now_after != now)
+				ctx.count("fault:clock_ticked_during_generate");
 			std::string h1 = builder_snapshot(b, true), c1 = builder_snapshot(b, false);
 			gens++;
 			// the builder itself is unchanged by generating
@@ -434,7 +452,25 @@ static void builder_exec(Ctx &ctx)
 					json_t *gh = json_loadb(dec[0].data(), dec[0].size(), 0, NULL), *gc = json_loadb(dec[1].data(), dec[1].size(), 0, NULL);
 					if (!gh || !json_is_object(gh) || !json_equal(gh, eh))
 						ctx.violation("C10", "header-content", ea->name, strf("emitted header %s, the builder model says %s", show(dec[0], 250).c_str(), show(json_text(eh), 250).c_str()));
-					if (!gc || !json_is_object(gc) || !json_equal(gc, ec))
+					bool pay_ok = gc && json_is_object(gc) && json_equal(gc, ec);
+					// the clock moved while generate ran: iat/nbf/exp must still all belong to ONE instant
+					for (int64_t t = now + 1; !pay_ok && gc && json_is_object(gc) && t <= now_after; t++) {
+						json_t *alt = json_deep_copy(mc);
+						if (iat)
+							json_object_set_new(alt, "iat", json_integer(t));
+						if (nbf_off > 0)
+							json_object_set_new(alt, "nbf", json_integer(t + nbf_off));
+						if (exp_off > 0)
+							json_object_set_new(alt, "exp", json_integer(t + exp_off));
+						json_t *dummyh = json_object();
+						if (prog)
+							for (auto &e : *prog)
+								model_edit(dummyh, alt, e);
+						json_decref(dummyh);
+						pay_ok = json_equal(gc, alt);
+						json_decref(alt);
+					}
+					if (!pay_ok)
 						ctx.violation("C10", "payload-content", strf("iat%d:nbf%d:exp%d:prog%d", iat, nbf_off > 0, exp_off > 0, prog ? 1 : 0),
 							      strf("emitted payload %s at now=%lld, the builder model says %s", show(dec[1], 250).c_str(), (long long)now, show(json_text(ec), 250).c_str()));
 					if (gh)
@@ -477,7 +513,8 @@ static void reuse_gen(Rng &r, Plan &p, Tier tier, uint64_t index)
 {
 	p.cfg["reuse"] = Val((int64_t)(r.chance(1, 4) ? 1 : 0)); // allocator address reuse (see SimAlloc::reuse)
 	(void)index;
-	p.cfg["mode"] = Val((int64_t)r.below(3)); // 0 checker HS256, 1 checker no key, 2 builder
+	p.cfg["mode"] = Val((int64_t)r.below(4)); // 0 checker HS256, 1 checker no key, 2 builder, 3 checker RSA (PS256 or RS256, OpenSSL)
+	p.cfg["rsalg"] = Val((int64_t)r.below(2));
 	p.cfg["iss"] = Val((int64_t)r.below(2));
 	p.cfg["faults"] = Val((int64_t)(r.chance(1, 4) ? 1 : 0));
 	int n = (int)r.range(6, tier == QUICK ? 35 : 50);
@@ -498,7 +535,7 @@ static void reuse_gen(Rng &r, Plan &p, Tier tier, uint64_t index)
 			break;
 		case 3:
 			s = Step("CBMODE");
-			s.set("mode", r.range(0, 3)); // 0 none, 1 noop cb, 2 cb failing now, 3 cb selecting a bad key
+			s.set("mode", r.range(0, 4)); // 0 none, 1 noop cb, 2 cb failing now, 3 cb selecting a bad key, 4 cb overriding the key with another valid one
 			break;
 		default:
 			s = Step("CALL");
@@ -540,12 +577,17 @@ static void reuse_exec(Ctx &ctx)
 	ctx.nontrivial = plan.steps.size() >= 4;
 	uint64_t hist = 0; // what happened to the long-lived object so far (last 3 events)
 	const AlgInfo *hs256 = alg_by_name("HS256");
+	jwt_alg_t rsalg = plan.C("rsalg") ? JWT_ALG_PS256 : JWT_ALG_RS256;
+	const AlgInfo *rsinfo = alg_by_id(rsalg);
+	set_provider(0); // OpenSSL: its thread-local error queue is the hidden state to look for in RSA mode
 
 	auto make_checker = [&](ProgCtx *pc) -> jwt_checker_t * {
 		Armed a;
 		jwt_checker_t *c = jwt_checker_new();
 		if (mode == 0)
 			jwt_checker_setkey(c, JWT_ALG_HS256, K.oct_l.item);
+		if (mode == 3)
+			jwt_checker_setkey(c, rsalg, K.rsa_pub.item);
 		if (cfg.want_iss)
 			jwt_checker_claim_set(c, JWT_CLAIM_ISS, cfg.iss.c_str());
 		jwt_checker_time_leeway(c, JWT_CLAIM_EXP, cfg.exp_on ? (time_t)cfg.exp_leeway : (time_t)-1);
@@ -556,6 +598,12 @@ static void reuse_exec(Ctx &ctx)
 			if (cfg.cbmode == 3) {
 				pc->set_key = true;
 				pc->setkey = K.weak_l.item;
+				pc->set_alg = JWT_ALG_HS256;
+			}
+			if (cfg.cbmode == 4 && mode == 0) {
+				// another valid key for as long as this callback mode lasts
+				pc->set_key = true;
+				pc->setkey = K.oct2_l.item;
 				pc->set_alg = JWT_ALG_HS256;
 			}
 			jwt_checker_setcb(c, prog_cb, pc);
@@ -581,6 +629,11 @@ static void reuse_exec(Ctx &ctx)
 				pc->set_key = true;
 				pc->setkey = K.ec_pub.item; // public-only key: generate must fail
 				pc->set_alg = JWT_ALG_ES256;
+			}
+			if (cfg.cbmode == 4) {
+				pc->set_key = true;
+				pc->setkey = K.oct2_l.item; // a per-token key override that comes and goes
+				pc->set_alg = JWT_ALG_HS256;
 			}
 			jwt_builder_setcb(b, prog_cb, pc);
 		}
@@ -652,6 +705,11 @@ static void reuse_exec(Ctx &ctx)
 				pc_long.setkey = mode == 2 ? K.ec_pub.item : K.weak_l.item;
 				pc_long.set_alg = mode == 2 ? JWT_ALG_ES256 : JWT_ALG_HS256;
 			}
+			if (cfg.cbmode == 4 && (mode == 0 || mode == 2)) {
+				pc_long.set_key = true;
+				pc_long.setkey = K.oct2_l.item;
+				pc_long.set_alg = JWT_ALG_HS256;
+			}
 			if (chk)
 				jwt_checker_setcb(chk, cfg.cbmode ? prog_cb : NULL, cfg.cbmode ? &pc_long : NULL);
 			if (bld)
@@ -662,11 +720,12 @@ static void reuse_exec(Ctx &ctx)
 			int64_t now = g_clock.now();
 			std::string tok;
 			const char *tokp = NULL;
-			std::string hdr = mode == 0 ? "{\"alg\":\"HS256\",\"typ\":\"JWT\"}" : "{\"alg\":\"none\"}";
+			std::string hdr = mode == 0 ? "{\"alg\":\"HS256\",\"typ\":\"JWT\"}" : mode == 3 ? strf("{\"alg\":\"%s\"}", rsinfo->name) : "{\"alg\":\"none\"}";
 			std::string iss = cfg.want_iss ? cfg.iss : "whoever";
 			std::string pay = strf("{\"iss\":\"%s\",\"exp\":%lld}", iss.c_str(), (long long)(now + 1000));
-			const KeyTruth *kt = mode == 0 ? K.oct.get() : NULL;
-			const AlgInfo *ka = mode == 0 ? hs256 : NULL;
+			const KeyTruth *kt = mode == 0 ? K.oct.get() : mode == 3 ? K.rsa.get() : NULL;
+			const AlgInfo *ka = mode == 0 ? hs256 : mode == 3 ? rsinfo : NULL;
+			sim_entropy_point(mix64(plan.rng, s.uid));
 			switch (kind) {
 			case TK_VALID:
 			case TK_VALID2:
@@ -690,7 +749,7 @@ static void reuse_exec(Ctx &ctx)
 				break;
 			case TK_BADSIG:
 				ref_make_token(hdr, pay, kt, ka, tok);
-				if (mode == 0)
+				if (mode == 0 || mode == 3)
 					tok[tok.size() - 2] = tok[tok.size() - 2] == 'A' ? 'B' : 'A';
 				else
 					tok += "AAAA";
@@ -712,12 +771,15 @@ static void reuse_exec(Ctx &ctx)
 			int64_t fail_at = s.I("failalloc");
 			VerifyOut vo = lib_verify(ctx, chk, tokp, true, fail_at);
 			// the twin: a freshly created, identically configured checker, same token, same instant
-			jwt_checker_t *twin = make_checker(&pc_twin);
-			VerifyOut vt = lib_verify(ctx, twin, tokp, true, 0);
-			{
+			// ... created and used on a fresh thread, so that thread-local state of the libraries (e.g. an
+			// error queue left behind by an earlier rejected token) is as fresh as the checker itself
+			VerifyOut vt;
+			run_isolated(mix64(plan.rng, s.uid + 7777), [&]() {
+				jwt_checker_t *twin = make_checker(&pc_twin);
+				vt = lib_verify(ctx, twin, tokp, true, 0);
 				Armed a;
 				jwt_checker_free(twin);
-			}
+			});
 			ctx.logf("CALL kind=%d -> reused %d ('%s') twin %d ('%s')%s", kind, vo.ret, vo.msg.c_str(), vt.ret, vt.msg.c_str(), vo.faults_fired ? " [alloc fault]" : "");
 			ctx.sig(strf("C13|c%d|k%d|cb%d|%d|%d|f%d|h%llx", mode, kind, cfg.cbmode, vo.ret != 0, vt.ret != 0, vo.faults_fired > 0, (unsigned long long)(hist & 0xffffff)));
 			hist = (hist << 8) | (uint64_t)(0x10 + kind * 2 + (vo.ret != 0));
@@ -742,12 +804,14 @@ static void reuse_exec(Ctx &ctx)
 			std::string h0 = builder_snapshot(bld, true), c0 = builder_snapshot(bld, false);
 			GenerateOut go = lib_generate(ctx, bld, true, fail_at);
 			std::string h1 = builder_snapshot(bld, true), c1 = builder_snapshot(bld, false);
-			jwt_builder_t *twin = make_builder(&pc_twin);
-			GenerateOut gt = lib_generate(ctx, twin, true, 0);
-			{
+			GenerateOut gt;
+			run_isolated(mix64(plan.rng, s.uid + 7777), [&]() {
+				sim_entropy_point(mix64(plan.rng, s.uid));
+				jwt_builder_t *twin = make_builder(&pc_twin);
+				gt = lib_generate(ctx, twin, true, 0);
 				Armed a;
 				jwt_builder_free(twin);
-			}
+			});
 			ctx.logf("CALL generate -> reused %s ('%s') twin %s ('%s')%s", go.ok ? "token" : "NULL", go.msg.c_str(), gt.ok ? "token" : "NULL", gt.msg.c_str(), go.faults_fired ? " [alloc fault]" : "");
 			ctx.sig(strf("C13|b|cb%d|%d|%d|f%d|h%llx", cfg.cbmode, go.ok, gt.ok, go.faults_fired > 0, (unsigned long long)(hist & 0xffffff)));
 			hist = (hist << 8) | (uint64_t)(0x80 + cfg.cbmode * 2 + go.ok);
